@@ -24,16 +24,29 @@ HTTP-version other than 1.x, truncated / corrupt / garbage-suffixed gzip, close-
 ended by RST, wire body larger than max_body_size although the decoded body fits, header block
 larger than max_header_size.
 
-Sensitivity (quick tier, seed 1, scratch copies of /repo/tornado):
-  M1 http1connection._read_message: skip the 1xx "Content-Length/Transfer-Encoding" check  -> caught (C08.reject_returned_response)
-  M2 http1connection._read_body: treat 204 like 200 (drop the 204 branch)                    -> caught (C08.accept_no_response / fetch pending)
-  M3 http1connection._read_message: drop HEAD skip_body                                     -> caught (C08.accept_no_response)
-  M4 _GzipMessageDelegate.data_received: no decompressed-size check                         -> caught (C08.body_exceeds_max_body_size)
-  M5 _read_chunked_body: accept any 2 bytes after chunk data (no CRLF check)                -> caught (C08.reject_returned_response)
-  M6 _read_body: unequal duplicate Content-Length values accepted (use the first)           -> caught (C08.reject_returned_response)
+Parts: "grid" = deterministic sweep (every mutation x 6 client/stream configurations; every gzip variant x framing
+x decompress x max_body_size placement x streaming), "main" = Hypothesis exploration.
+
+Open findings on the current tree (known_findings.d/C08.json, findings_inbox/C08-*.md), each with a narrow sig:
+  close-delimited body ignores max_body_size; 1xx fall-through in _read_message (extra bytes to streaming_callback,
+  1xx returned as the response); malformed head never reported (hang without timeouts); multi-member gzip truncated
+  to the first member.  All four disappear (no KNOWN-FINDING line, 0 violations) with the proposed patches applied.
+
+Oracle corrections made while building (false alarms, not findings): identical duplicated Content-Length values may
+be collapsed to one value in the returned headers (RFC 9110 8.6 allows it); invalid framing headers on bodiless
+responses (HEAD/204/304) are EITHER, not reject.
+
+Sensitivity (quick tier, seed 1, scratch copies of /repo/tornado, one mutant at a time):
+  M1 _read_message: skip the 1xx "Content-Length/Transfer-Encoding" check          -> caught  C08.reject_returned_response
+  M2 _read_body: 204 treated like 200 (204 branch disabled)                        -> caught  C08.accept_no_response (peer keeps
+     the connection open; first version of the check missed it: no 204 without Content-Length + open connection was
+     generated -> grid row + label no_body_status_no_framing_header_peer_open added)
+  M3 _read_message: HEAD no longer sets skip_body                                  -> caught  C08.accept_no_response
+  M4 _GzipMessageDelegate.data_received: decompressed-size check removed           -> caught  C08.body_exceeds_max_body_size
+  M5 _read_chunked_body: CRLF after chunk data not checked                         -> caught  C08.reject_returned_response
+  M6 _read_body: unequal duplicate Content-Length values accepted                  -> caught  C08.reject_returned_response
 """
 import gzip as _gzip
-import zlib
 
 from hypothesis import strategies as st
 
@@ -44,7 +57,7 @@ from vlib import httpref, vtime
 from vlib.httpharness import LogCapture
 
 PROPERTY = "C08"
-READY = False
+READY = True
 RULE = (
     "Hypothesis draws a response description (interim 1xx list, version, status, reason, header list, "
     "framing, payload <=16 KiB, gzip variant, chunk sizes) plus one named mutation out of ~60 or a cut "
@@ -945,4 +958,4 @@ PARTS = {"main": run_case, "grid": run_case}
 def main(ctx):
     ctx.run_replays(PARTS)
     ctx.enumerate(grid_cases(), run_case, name="grid", exhaustive=False)
-    ctx.explore(case_s(), run_case, ctx.n(1500, 60000), name="main")
+    ctx.explore(case_s(), run_case, ctx.n(1000, 60000), name="main")
